@@ -414,6 +414,7 @@ fn classify(sh: &Shared, w: &Worker, cfg: &Config, node: &Node, pre: &Pre, msg: 
         l.violation(&key, &f.what, || {
             let mut j = case_json(&cfg.zone, history, msg);
             j["clause"] = json!(f.clause);
+            j["minimal_witness"] = sh.keyer.witness(&key).unwrap_or(Value::Null);
             j["pre_state"] = json!(pre.snap.text());
             j["post_state"] = json!(out.post.text());
             j["rcode"] = json!(out.rcode.map(ru::rcode_name));
